@@ -5,7 +5,7 @@ import numpy as np, pandas as pd
 import pandapower as pp
 
 
-def rich_net(rng, n_dcline=None, gens=None, taptab=None, nb=None, index_gap=None, shift=150):
+def rich_net(rng, n_dcline=None, gens=None, taptab=None, nb=None, index_gap=None, shift=150, bb_switch=None):
     """meshed 110 kV ring of nb buses + one 20 kV bus behind a transformer"""
     net = pp.create_empty_network()
     nb = nb or rng.randint(3, 5)
@@ -33,6 +33,15 @@ def rich_net(rng, n_dcline=None, gens=None, taptab=None, nb=None, index_gap=None
             pp.create_load(net, bus, p_mw=rng.randint(4, 40) / 8, q_mvar=rng.randint(0, 8) / 8)
     if len(net.load) == 0:
         pp.create_load(net, lv, p_mw=2., q_mvar=0.5)
+    # substation busbars: extra buses coupled by closed bus-bus switches, each with its own injection
+    nbb = (rng.choice([0, 1, 2]) if bb_switch is None else int(bb_switch))
+    for k in range(nbb):
+        at = b[rng.randrange(1, nb)]
+        extra = pp.create_bus(net, 110.)
+        pp.create_switch(net, at, extra, et="b", closed=True, z_ohm=0.0)
+        pp.create_load(net, extra, p_mw=rng.randint(4, 24) / 8, q_mvar=rng.randint(0, 8) / 8)
+        if len(net.load[net.load.bus == at]) == 0:
+            pp.create_load(net, at, p_mw=rng.randint(4, 24) / 8, q_mvar=rng.randint(0, 8) / 8)
     if rng.random() < 0.5:
         pp.create_shunt(net, b[-1], q_mvar=-rng.randint(1, 8) / 4, p_mw=0.)
     ngen = rng.choice([0, 1, 2]) if gens is None else gens
@@ -78,7 +87,7 @@ def add_measurements(net):
     return net
 
 
-def b2b_net(user_vsc_name=None):
+def b2b_net(user_vsc_name=None, n_dcline=0):
     """bipolar back-to-back VSC link (after test_facts_b2b_vsc.py); optionally a user VSC with a given name"""
     net = pp.create_empty_network()
     pp.create_buses(net, 8, 380)
@@ -97,6 +106,11 @@ def b2b_net(user_vsc_name=None):
     pp.create_b2b_vsc(net, 3, 1, 2, 0.2, 10, 0.3, control_mode_ac='vm_pu', control_value_ac=1, control_mode_dc="vm_pu", control_value_dc=1.)
     pp.create_b2b_vsc(net, 4, 3, 4, 0.2, 10, 0.3, control_mode_ac='slack', control_value_ac=1, control_mode_dc="p_mw", control_value_dc=1.5)
     pp.create_b2b_vsc(net, 5, 4, 5, 0.2, 10, 0.3, control_mode_ac='slack', control_value_ac=1, control_mode_dc="p_mw", control_value_dc=0.5)
+    for k in range(n_dcline):
+        # a dcline next to the b2b_vsc's: both kinds of auxiliary elements exist in the same calculation
+        f, t = [(6, 7), (7, 6)][k % 2]
+        pp.create_dcline(net, f, t, p_mw=5.0, loss_percent=1.0, loss_mw=0.125, vm_from_pu=1.0, vm_to_pu=1.0, max_p_mw=50.,
+                         min_q_from_mvar=-50., max_q_from_mvar=50., min_q_to_mvar=-50., max_q_to_mvar=50.)
     if user_vsc_name is not None:
         pp.create_vsc(net, 6, 3, 0.2, 10, 0.3, control_mode_ac='vm_pu', control_value_ac=1., control_mode_dc="p_mw",
                       control_value_dc=0., name=user_vsc_name, in_service=False)
